@@ -391,7 +391,7 @@ func TestC12Trees(t *testing.T) {
 		}
 		for _, txt := range []string{minimal, redundant, full} {
 			c := &Case{Prop: "C12", Kind: "meaning", Script: "return " + txt + ";", Vars: vars, Exp: exp,
-				HostVals: map[string]lang.Value{}, NoOpt: rapid.Bool().Draw(rt, "noopt") || sqrtFold, Hazard: lang.HasRange(tree)}
+				HostVals: map[string]lang.Value{}, NoOpt: rapid.Bool().Draw(rt, "noopt") || sqrtFold, Hazard: lang.HasRange(tree), HashOrder: lang.HasMultiHash(tree)}
 			if err := runMeaning(c); err != nil {
 				violation(rt, "C12", c, "%v", err)
 			}
@@ -408,6 +408,9 @@ func TestC12Trees(t *testing.T) {
 // and g (a fixed array) are provided.
 func runMeaning(c *Case) error {
 	if c.Exp.Unspec && (c.Hazard || strings.HasPrefix(c.Exp.Why, "resource:")) {
+		return nil
+	}
+	if c.Exp.Err && c.Hazard && c.HashOrder {
 		return nil
 	}
 	r := eng.NewRunner(c.Script)
